@@ -66,6 +66,16 @@ def refine_twice(case):
             if f(pt) != val:
                 fails.append('after DoLocalRefinement(%d): reported value %r != objective at the returned point %r' % (k, val, f(pt)))
             g = min(g, val)
+        # the search goes on after a refinement: what is reported must stay the objective at the reported point
+        for k in (1, 3):
+            s.DoGlobalIteration(k)
+            sol = s.GetResults()
+            pt = [float(v) for v in sol.bestTrials[0].point.floatVariables]
+            val = sol.bestTrials[0].functionValues[0].value
+            if f(pt) != val:
+                fails.append('after refinement and %d more global iteration(s): reported value %r != objective at the reported point %r' % (k, val, f(pt)))
+            if any(not (a <= c <= b) for a, c, b in zip(case['lo'], pt, case['hi'])):
+                fails.append('after refinement and more global iterations: reported point %r outside the box' % (pt,))
     for y, v in p.log:
         if any(not (a <= c <= b) for a, c, b in zip(case['lo'], y, case['hi'])):
             fails.append('evaluation at %r outside the box' % (y,)); break
